@@ -788,6 +788,57 @@ def rule_r14(prog, res):
                         'mangled into [{"x": [1]}, ...]')
 
 
+def rule_r15(prog, res):
+    res.rule('R15', 'the dict writer renders a None of a complex type as a '
+             'null: the object renderer is only reached with an instance')
+    from ..flow import entails, guards_at, flatten_guards
+    h = prog.cls('spyne.protocol.dictdoc.hier:HierDictDocument')
+    f = h.methods.get('_to_dict_value')
+    if f is None:
+        raise AnalysisError('HierDictDocument._to_dict_value', 'not found')
+    ps = f.params()
+    inst = ps[2] if len(ps) > 2 else 'inst'
+    n = 0
+    for c in calls_in(f.node):
+        if call_name(c) not in ('_complex_to_doc', '_complex_to_dict',
+                                '_complex_to_list'):
+            continue
+        if len(c.args) < 2 or unparse(c.args[1]) != inst:
+            continue
+        st = c
+        while not isinstance(st, ast.stmt):
+            st = st._parent
+        g = flatten_guards(guards_at(st, stop=f.node))
+        if any(isinstance(x, ast.Call) and call_name(x) == 'isinstance' and
+               x.args and unparse(x.args[0]) == inst
+               for ex, _ in g for x in ast.walk(ex)) and entails(
+                g, 'isinstance(%s, cls_orig_attrs.type)' % inst):
+            continue        # the File branch: an instance of the value class
+        n += 1
+        ok = entails(g, '%s is not None' % inst)
+        # the test must read the value the renderer gets
+        last_bind = max([a.lineno for a in walk_no_defs(f.node)
+                         if isinstance(a, ast.Assign) and any(
+                             isinstance(t, ast.Name) and t.id == inst
+                             for t in a.targets)] or [0])
+        tests = [x.lineno for ex, _ in g for x in ast.walk(ex)
+                 if isinstance(x, ast.Compare) and unparse(x.left) == inst]
+        if ok and tests and min(tests) < last_bind < st.lineno:
+            ok = False
+        where = '%s:%d' % (f.module.relpath, c.lineno)
+        res.ob('R15', where, '_to_dict_value renders the object %s' % (
+            'only when there is one' if ok else 'also for None'),
+            'ok' if ok else 'VIOLATED')
+        if not ok:
+            res.finding('R15', 'HierDictDocument._to_dict_value|none-as-'
+                        'empty-object', where, 'a None of a complex type '
+                        'reaches %s, which builds an empty instance: a None '
+                        'result or array item is written as {} (or [null, '
+                        '...]) and reads back as an empty object, not as '
+                        'None' % call_name(c))
+    res.floor('R15', 'object renderings in _to_dict_value', n, 1)
+
+
 def run(prog, res, tier):
     res.run_rule(rule_r1, prog, res)
     res.run_rule(rule_r2, prog, res)
@@ -803,6 +854,7 @@ def run(prog, res, tier):
     res.run_rule(rule_r12, prog, res)
     res.run_rule(rule_r13, prog, res)
     res.run_rule(rule_r14, prog, res)
+    res.run_rule(rule_r15, prog, res)
 
 
 _H = 'spyne/protocol/dictdoc/hier.py'
@@ -811,6 +863,24 @@ _J = 'spyne/protocol/json.py'
 _Y = 'spyne/protocol/yaml.py'
 
 MUTANTS = [
+    Mutant('none-complex-as-empty-object', 'R15', 'fire', _H,
+           in_func('HierDictDocument._to_dict_value',
+                   "        if inst is None and issubclass(cls, "
+                   "ComplexModelBase) \\\n", "        if False and "
+                   "issubclass(cls, ComplexModelBase) \\\n"),
+           'none-as-empty-object'),
+    Mutant('none-complex-only-when-not-polymorphic', 'R15', 'fire', _H,
+           in_func('HierDictDocument._to_dict_value',
+                   "        if inst is None and issubclass(cls, "
+                   "ComplexModelBase) \\\n", "        if inst is None and "
+                   "not switched and self.ignore_wrappers and issubclass(cls, "
+                   "ComplexModelBase) \\\n"),
+           'none-as-empty-object'),
+    Mutant('none-complex-test-order', 'R15', 'benign', _H,
+           in_func('HierDictDocument._to_dict_value',
+                   "        if inst is None and issubclass(cls, "
+                   "ComplexModelBase) \\\n", "        if issubclass(cls, "
+                   "ComplexModelBase) and inst is None \\\n"), None),
     Mutant('nested-arrays-unwrapped-in-one-go', 'R14', 'fire', _H,
            in_func('HierDictDocument._object_to_doc',
                    "                if is_array:\n", "                if False:"
